@@ -143,10 +143,14 @@ Definition all_features (S : schema) : features :=
     replayed by hash).  A WebSocket connection (both subprotocols) evaluates it once, when
     connection_init is handled; every later operation of the connection and every event of its
     subscriptions is validated and executed with THAT set, whatever the environment says by then;
-    operations before connection_init are ignored. *)
+    operations before connection_init are ignored.  With Config.HandleGraphQLWSInit the function is
+    applied to the context the hook RETURNED for that init (the hook may put what the payload
+    grants into it): the effective set is Features(context returned by the hook of the LATEST
+    accepted connection_init) — [PInitWith f]: an init whose hook's context makes Features answer f. *)
 Inductive pstep :=
 | PEnv (now : features)        (* the environment changes *)
-| PInit                        (* WebSocket: connection_init *)
+| PInit                        (* WebSocket: connection_init (no hook, or a hook that leaves Features alone) *)
+| PInitWith (f : features)     (* WebSocket: connection_init whose hook returns a context in which Features answers f *)
 | POp.                         (* an operation (HTTP request / start / subscribe) or a subscription event *)
 
 (** the feature set each [POp] of a WebSocket connection runs with ([None]: ignored) *)
@@ -155,6 +159,7 @@ Fixpoint ws_effective (env : features) (conn : option features) (h : list pstep)
   | [] => []
   | PEnv now :: r => ws_effective now conn r
   | PInit :: r => ws_effective env (Some env) r
+  | PInitWith f :: r => ws_effective env (Some f) r
   | POp :: r => conn :: ws_effective env conn r
   end.
 
@@ -164,5 +169,6 @@ Fixpoint http_effective (env : features) (h : list pstep) : list (option feature
   | [] => []
   | PEnv now :: r => http_effective now r
   | PInit :: r => http_effective env r
+  | PInitWith _ :: r => http_effective env r
   | POp :: r => Some env :: http_effective env r
   end.
